@@ -19,6 +19,7 @@ RULE = ('four Hypothesis sub-checks.  smooth: float32/float64 arrays of length 1
         'targets (non-integral factor, rank change) must raise ValueError.  Non-trivial: width >= 3 and N > width; even-length median; '
         'rebin with both an expanding and a shrinking axis.')
 RULE += '  Also: strided / reversed views for smooth, runs of +-inf for uniq, expansion factors 5, 6, 7, 10, 49, 98 and big-endian floats for rebin.'
+RULE += ' Round 11: uniq on distinct doubles 1 ulp / 2^-40 / 5e-11 relative apart and on denormals.'
 RULE += ' Round 5: two rebin results alive at once; median inputs compared after the call, read-only inputs.'
 ASSUMPTIONS = ['widths do not exceed the array length; running-median widths are odd',
                'integer arrays for rebin are signed and non-negative (unsigned input wraps around in the interpolation difference: rebin(uint8 [1,0], 4) gives [1,128,0,0]; noted in DESIGN.md, not asserted: IDL truncation and floor division coincide there; the docstring itself warns about integer compatibility)',
@@ -215,7 +216,10 @@ def uniq_case(draw):
     dtype = draw(st.sampled_from(['i4', 'f8', 'i8']))
     vals = [draw(st.integers(-4, 4)) for _ in range(n)] if draw(st.integers(0, 4)) else [draw(st.integers(-4, 4))] * n
     inf = dtype == 'f8' and draw(st.integers(0, 3)) == 0        # runs of +-infinity at the ends of a sorted float array
-    return dict(x=vals, dtype=dtype, use_index=draw(st.booleans()), inf=inf, descending=draw(st.sampled_from([False, False, True])))
+    # round 11: distinct floating-point values that are very close (neighbouring doubles, 1e-12 and 5e-11 relative apart, denormals):
+    # "equal values" means equal, every one of them ends its own run
+    near = draw(st.sampled_from([None, None, 'ulp', 'rel40', 'big', 'denormal'])) if dtype == 'f8' and not inf else None
+    return dict(x=vals, dtype=dtype, use_index=draw(st.booleans()), inf=inf, descending=draw(st.sampled_from([False, False, True])), near=near)
 
 
 def uniq_body(case):
@@ -223,6 +227,10 @@ def uniq_body(case):
     x = np.array(case['x'], dtype=case['dtype'])
     if case.get('inf'):
         x = np.where(x <= -3, -np.inf, np.where(x >= 3, np.inf, x))
+    if case.get('near'):
+        step, base = dict(ulp=(2.0 ** -52, 1.5), rel40=(2.0 ** -40, 1.5), big=(0.5, 1e10), denormal=(5e-324, 0.0))[case['near']]
+        x = base + x * step           # exact: the values stay distinct and in the same order
+        note_label('near-ties:' + case['near'])
     if case['use_index']:
         idx = np.argsort(x, kind='stable')
         if case.get('descending') and len(set(x.tolist())) > 1:
